@@ -238,10 +238,22 @@ def parse_thrown():
         p = os.path.join(common.REPO, rel)
         if not os.path.exists(p):
             continue
-        src = strip_comments(open(p, errors="replace").read())
+        src = strip_archive_functions(strip_comments(open(p, errors="replace").read()))
         for m in re.finditer(r"\bthrow\s+([A-Za-z_][\w:]*)\s*[({]", src):
             res.setdefault(m.group(1), set()).add(os.path.basename(rel))
     return res
+
+
+def strip_archive_functions(src):
+    """blank the bodies of functions that take an `Archiver&`: they run only inside the host's save / load call,
+    never under `ScriptVM::Execute`, so what they throw (ArchiveErrors::*, property C10/C11) is not a script error
+    and not something a running script can make the VM raise"""
+    out = src
+    for m in re.finditer(r"\([^(){};]*\bArchiver\s*&[^(){};]*\)\s*(?:const\s*)?\{", src):
+        i = m.end() - 1
+        j = match_brace(src, i)
+        out = out[:i + 1] + re.sub(r"[^\n]", " ", src[i + 1:j - 1]) + out[j - 1:]
+    return out
 
 
 def parse_execute_catches():
